@@ -1,6 +1,7 @@
 package props
 
 import (
+	"sort"
 	"encoding/json"
 	"fmt"
 	"net/http"
@@ -314,6 +315,7 @@ type c01SchedResult struct {
 	Execs      int64          `json:"execs"`
 	Points     int64          `json:"points"`
 	Truncated  bool           `json:"truncated"`
+	Stuck      string         `json:"stuck,omitempty"`
 	Outcomes   map[string]int `json:"outcomes"`
 	Violations []c15Violation `json:"violations"`
 }
@@ -351,6 +353,10 @@ func c01Sched(name string, bound int, deadline time.Time, only []int) c01SchedRe
 		return []sched.Body{cb(a.ID), cb(b.ID), func() any { w.Store.Complete(b.ID, "u-bob"); return nil }}
 	}
 	check := func(x *sched.Exec, schedule []int) {
+		if x.Stuck {
+			res.Stuck = "a thread blocked outside the scheduler after point " + x.StuckAt
+			return
+		}
 		if x.Deadlock || x.Horizon {
 			res.Outcomes["violation:deadlock-or-horizon"]++
 			res.Violations = append(res.Violations, c15Violation{Clause: "deadlock-or-horizon", Schedule: append([]int{}, schedule...)})
@@ -428,6 +434,7 @@ func runC01(ctx Ctx) int {
 			idx, _ := strconv.Atoi(ctx.Args[i+1])
 			bound, _ := strconv.Atoi(ctx.Args[i+2])
 			secs, _ := strconv.Atoi(ctx.Args[i+3])
+			sched.Fine = os.Getenv("VERIF_SCHED_FINE") != "0" // statement granularity
 			r := c01Sched(c01SchedScenarios[idx], bound, time.Now().Add(time.Duration(secs)*time.Second), nil)
 			b, _ := json.Marshal(r)
 			fmt.Println("RESULT " + string(b))
@@ -435,7 +442,7 @@ func runC01(ctx Ctx) int {
 		}
 	}
 	run := ev.NewRun("C01")
-	run.Rule = "E2: breadth-first search over event histories on the real provider: events = SSO acceptance (POST/Redirect), injected pending records (binding POST/Redirect/none/Artifact x consumer URL registered/empty, and records reusing the first session's SP-chosen request ID and RelayState), login completion of any session, callback of any session in 10 id placements / spellings (GET query, POST body, body and query naming different sessions, two id values, id in a header only, padded, upper-cased, urn:uuid: prefix, braces, dash-less; stored ids are UUID-shaped) plus unknown / empty / absent id, and arming a one-shot storage failure (user info, entity lookup, signing key error / key without certificate / garbage certificate / zero key / certificate of another key); states are deduplicated by a canonical key (sessions in creation order: binding, consumer-URL-empty, done, user; armed fault) and every transition, including self-loops, is executed by replaying the shortest history on a fresh provider and judged; every state is additionally extended by callback(k) ; callback(any) so that state kept inside the IdP between requests shows. E3: callback(i) || complete(i) with unbounded preemptions (both bindings) and callback(i) || callback(j) || complete(j) at preemption bound 2 (quick) / 3 (thorough) under the controlled scheduler"
+	run.Rule = "E2: breadth-first search over event histories on the real provider: events = SSO acceptance (POST/Redirect), injected pending records (binding POST/Redirect/none/Artifact x consumer URL registered/empty, and records reusing the first session's SP-chosen request ID and RelayState), login completion of any session, callback of any session in 10 id placements / spellings (GET query, POST body, body and query naming different sessions, two id values, id in a header only, padded, upper-cased, urn:uuid: prefix, braces, dash-less; stored ids are UUID-shaped) plus unknown / empty / absent id, and arming a one-shot storage failure (user info, entity lookup, signing key error / key without certificate / garbage certificate / zero key / certificate of another key); states are deduplicated by a canonical key (sessions in creation order: binding, consumer-URL-empty, done, user; armed fault) and every transition, including self-loops, is executed by replaying the shortest history on a fresh provider and judged; every state is additionally extended by callback(k) ; callback(any) so that state kept inside the IdP between requests shows. E3 (controlled scheduler; scheduling points before every statement of every repository function, at every function entry and storage call): callback(i) || complete(i) with unbounded preemptions (both bindings), callback(i) || callback(j) || complete(j) at preemption bound 2 (quick) / 3 (thorough) at function-entry granularity and at bound 1 / 2 at statement granularity, two callbacks of one user (one pending, one done) at bound 2"
 	run.Assume = []string{"<= 2 sessions and depth 5 (quick), <= 3 sessions and depth 6 (thorough); the canonical key keeps, of request ID and RelayState, only whether a session reuses the first session's values"}
 	if ctx.Replay != "" {
 		var rp c01ReplayT
@@ -573,20 +580,31 @@ func runC01(ctx Ctx) int {
 		exe, _ = os.Executable()
 	}
 	trunc := 0
-	_, c2 := parallel(len(c01SchedScenarios), deadline, func(i int) {
-		bound := -1
-		if i == 2 {
-			bound = bound3
-		}
-		if i == 3 {
-			bound = 2
-		}
+	// jobs: (scenario, granularity, preemption bound). Statement granularity ("fine") puts a scheduling point before
+	// every statement of every repository function; "coarse" = function entries, storage calls, sync operations.
+	type schedJob struct {
+		idx   int
+		fine  bool
+		bound int
+	}
+	jobs := []schedJob{{0, true, -1}, {1, true, -1}, {2, false, bound3}, {2, true, bound3 - 1}, {3, true, 2}}
+	if run.Tier == "thorough" {
+		jobs = append(jobs, schedJob{3, false, 3})
+	}
+	var jobDesc []string
+	_, c2 := parallel(len(jobs), deadline, func(ji int) {
+		j := jobs[ji]
+		i, bound := j.idx, j.bound
 		secs := 120
 		if run.Tier == "thorough" {
 			secs = 1200
 		}
 		cmd := exec.Command(exe, "C01", "--worker", strconv.Itoa(i), strconv.Itoa(bound), strconv.Itoa(secs))
-		cmd.Env = append(os.Environ(), "GOMAXPROCS=1")
+		fineEnv := "VERIF_SCHED_FINE=0"
+		if j.fine {
+			fineEnv = "VERIF_SCHED_FINE=1"
+		}
+		cmd.Env = append(os.Environ(), fineEnv, "GOMAXPROCS=1")
 		out, err := cmd.CombinedOutput()
 		var r c01SchedResult
 		okk := false
@@ -604,13 +622,20 @@ func runC01(ctx Ctx) int {
 		run.Evaluations.Add(r.Execs)
 		run.AddStates(r.Execs)
 		run.Transitions.Add(r.Points)
-		if r.Truncated {
+		if r.Stuck != "" {
+			run.HarnessError(fmt.Sprintf("scheduler scenario %q cannot be explored: %s", r.Scenario, r.Stuck))
+		} else if r.Truncated {
 			trunc++
 		}
 		for k, n := range r.Outcomes {
 			run.OutcomeN("sched:"+k, int64(n))
 		}
-		run.Sample(map[string]any{"scenario": r.Scenario, "preemption_bound": r.Bound, "schedules": r.Execs, "points": r.Points})
+		gran := "function-entry"
+		if j.fine {
+			gran = "statement"
+		}
+		jobDesc = append(jobDesc, fmt.Sprintf("%s @%s bound %d: %d schedules", r.Scenario, gran, r.Bound, r.Execs))
+		run.Sample(map[string]any{"scenario": r.Scenario, "granularity": gran, "preemption_bound": r.Bound, "schedules": r.Execs, "points": r.Points})
 		for _, v := range r.Violations {
 			run.Violate(v.Clause, "callback-concurrent", []string{"scenario=" + r.Scenario}, map[string]any{"detail": v.Detail}, c01ReplayT{Scenario: r.Scenario, Schedule: v.Schedule})
 		}
@@ -619,6 +644,8 @@ func runC01(ctx Ctx) int {
 	if trunc > 0 {
 		run.NotExhaustive(fmt.Sprintf("%d scheduler scenario(s) hit their time budget", trunc))
 	}
-	finishCapped(run, complete && c2, fmt.Sprintf("BFS: <= %d sessions, depth %d completed, %d canonical states; scheduler: 2-thread scenarios unbounded, 3-thread scenario at preemption bound %d", maxSessions, depthDone, len(seen), bound3))
+	finishCapped(run, complete && c2, fmt.Sprintf("BFS: <= %d sessions, depth %d completed, %d canonical states; scheduler: callback || complete unbounded at statement granularity, 3-thread scenario at preemption bound %d (function-entry granularity) and %d (statement granularity), same-user callbacks at bound 2 (statement granularity)", maxSessions, depthDone, len(seen), bound3, bound3-1))
+	sort.Strings(jobDesc)
+	run.Set("scheduler_jobs", jobDesc)
 	return run.Finish()
 }
